@@ -181,23 +181,24 @@ func runC16(r *fw.Run) {
 			}},
 			fw.GuardSpec{Name: "parsed", Match: fw.AtomVarFromCall(fi, "Nil", "resolve", "result.parsedResponse", 1)},
 			fw.GuardSpec{Name: "no-graphql-errors", Match: func(info *types.Info, a fw.CondAtom) bool {
-				// fall-through of `ValueIsNonNull(errs) && len(errs.GetArray()) > 0`
-				if a.Kind != "False" && a.Kind != "Empty" {
+				// fall-through of `ValueIsNonNull(errs) && len(errs.GetArray()) > 0`, however it is spelled: in negation
+				// normal form "errs is null OR the array is empty" — every disjunct says "no errors", and the
+				// emptiness disjunct is present
+				op, leaves := fw.AtomNNF(info, a)
+				if op != "atom" && op != "or" {
 					return false
 				}
-				hasNonNull, hasLen := false, false
-				fw.WalkAll(a.X, func(n ast.Node) bool {
-					if c, ok := n.(*ast.CallExpr); ok {
-						if fn := fw.Callee(info, c); fn != nil && fn.Name() == "ValueIsNonNull" {
-							hasNonNull = true
-						}
-						if fn := fw.Callee(info, c); fn != nil && fn.Name() == "GetArray" {
-							hasLen = true
-						}
+				hasEmpty := false
+				for _, l := range leaves {
+					switch {
+					case l.Kind == "Empty" && mentionsCallNamed(info, l.X, "GetArray"):
+						hasEmpty = true
+					case l.Kind == "False" && mentionsCallNamed(info, l.X, "ValueIsNonNull"):
+					default:
+						return false
 					}
-					return true
-				})
-				return (a.Kind == "False" && hasNonNull && hasLen) || (a.Kind == "Empty" && hasLen)
+				}
+				return hasEmpty
 			}},
 			fw.GuardSpec{Name: "ttl-ok", Match: fw.AtomVarFromCall(fi, "True", "caching", "TTL", 1)},
 			fw.GuardSpec{Name: "one-value-per-key", Match: func(info *types.Info, a fw.CondAtom) bool {
@@ -284,23 +285,24 @@ func runC16(r *fw.Run) {
 				return (isLenOf(a.X, found) && isLenOf(a.Y, keys)) || (isLenOf(a.Y, found) && isLenOf(a.X, keys))
 			}},
 			fw.GuardSpec{Name: "entry-missing-or-empty", Match: func(info *types.Info, a fw.CondAtom) bool {
-				if a.Kind != "True" {
-					return false
-				}
-				b, ok := ast.Unparen(a.X).(*ast.BinaryExpr)
-				if !ok || b.Op.String() != "||" {
+				// `!ok || len(item.Value) == 0` in any spelling: a disjunction of "the comma-ok flag is false" and
+				// "the entry's value is empty", and nothing else
+				op, leaves := fw.AtomNNF(info, a)
+				if op != "or" {
 					return false
 				}
 				hasOK, hasEmpty := false, false
-				fw.WalkAll(b, func(n ast.Node) bool {
-					if u, ok := n.(*ast.UnaryExpr); ok && u.Op.String() == "!" {
+				for _, l := range leaves {
+					_, isID := ast.Unparen(l.X).(*ast.Ident)
+					switch {
+					case l.Kind == "False" && isID:
 						hasOK = true
-					}
-					if sel, ok := n.(*ast.SelectorExpr); ok && fw.IsFieldSel(info, sel, "caching", "Item", "Value") {
+					case l.Kind == "Empty" && fw.IsFieldSel(info, l.X, "caching", "Item", "Value"):
 						hasEmpty = true
+					default:
+						return false
 					}
-					return true
-				})
+				}
 				return hasOK && hasEmpty
 			}},
 		)
